@@ -55,6 +55,7 @@ type world struct {
 	lastCommit [3]common.Hash
 	flushed    [3]common.Hash
 	unflushed  [][3]common.Hash // committed root triples never flushed (the last one may be lastCommit)
+	commits    [][3]common.Hash // root triples of the Commits made through the current Database, oldest first
 }
 
 func newWorld() *world {
@@ -505,16 +506,19 @@ func (w *world) apply(op *Op, ev map[string]interface{}) {
 	case "Finalise":
 		st.Finalise(true)
 	case "Root":
+		ev["pre"] = w.getterDump(st) // what the object shows BEFORE the root computation
 		a, b, c := st.IntermediateRoot(true)
 		ev["roots"] = fixture.Roots(a, b, c)
 		ev["live"] = w.getterDump(st)
 	case "Commit", "Reload":
+		ev["pre"] = w.getterDump(st)
 		a, b, c, err := st.Commit(true)
 		if err != nil {
 			panic(err)
 		}
 		ev["roots"] = fixture.Roots(a, b, c)
 		ev["live"] = w.getterDump(st)
+		w.commits = append(w.commits, [3]common.Hash{a, b, c})
 		if t := [3]common.Hash{a, b, c}; t != w.lastCommit {
 			w.lastCommit = t
 			if t != w.flushed {
@@ -596,8 +600,40 @@ func (w *world) apply(op *Op, ev map[string]interface{}) {
 		w.st = re
 		w.lastCommit = w.flushed
 		w.unflushed = nil
+		w.commits = [][3]common.Hash{w.flushed}
 		ev["live"] = w.getterDump(re)
 		ev["raw"] = w.enumDump(re)
+	case "ReloadOld":
+		// state.New(k-th last committed roots) through the SAME Database, while the live object has gone on: a throw-away probe
+		if op.D < 1 || op.D > len(w.commits) {
+			ev["refused"] = true
+			break
+		}
+		t := w.commits[len(w.commits)-op.D]
+		ev["roots"] = fixture.Roots(t[0], t[1], t[2])
+		re, err := state.New(t[0], t[1], t[2], w.db)
+		if err != nil {
+			ev["re"], ev["raw"] = &dump{Err: err.Error()}, &dump{Err: err.Error()}
+			ev["reroots"] = []string{"", "", ""}
+			break
+		}
+		ev["re"] = w.getterDump(re)
+		ev["raw"] = w.enumDump(re)
+		ra, rb, rc := re.IntermediateRoot(true)
+		ev["reroots"] = fixture.Roots(ra, rb, rc)
+	case "AddRecordOther":
+		// both sides of a copy go on recording: the same call on the most recent frozen object
+		if len(w.frozen) == 0 {
+			ev["refused"] = true
+			break
+		}
+		ev["mainpre"] = w.getterDump(st)
+		var val *big.Int
+		if op.D >= 0 {
+			val = bi(op.D)
+		}
+		w.frozen[len(w.frozen)-1].AddStakingRecord(w.addr(op.A), w.vals[op.V].Addr, txHash(op.H), val)
+		ev["main"] = w.getterDump(st)
 	case "Copy", "CopySwap":
 		cp := st.Copy()
 		ev["orig"] = w.getterDump(st)
@@ -652,13 +688,14 @@ func run(env *drive.Env) error {
 			}
 			objs := append([]*state.StateDB{w.st}, w.frozen...)
 			var roots [][]string
-			var dumps []*dump
+			var dumps, pres []*dump
 			for _, o := range objs {
+				pres = append(pres, w.getterDump(o))
 				a, b, c := o.IntermediateRoot(true)
 				roots = append(roots, fixture.Roots(a, b, c))
 				dumps = append(dumps, w.getterDump(o))
 			}
-			end["endroots"], end["enddumps"] = roots, dumps
+			end["endroots"], end["enddumps"], end["endpre"] = roots, dumps, pres
 		}()
 		env.Emit(end)
 		beh = nil
